@@ -658,6 +658,69 @@ func (c *canonT) resolveRenamedBySignature() {
 		k := normalize.SigKey(fn)
 		bySig[k] = append(bySig[k], fn)
 	}
+	// several renamed functions with one signature: pair them by name similarity when that is unambiguous
+	for sg, fns := range bySig {
+		ms := missing[sg]
+		if len(fns) < 2 || len(fns) != len(ms) {
+			continue
+		}
+		base := func(q string) string {
+			if i := strings.LastIndex(q, "."); i >= 0 {
+				return q[i+1:]
+			}
+			return q
+		}
+		score := func(a, b string) int {
+			a, b = strings.ToLower(a), strings.ToLower(b)
+			n := 0
+			for n < len(a) && n < len(b) && a[n] == b[n] {
+				n++
+			}
+			m := 0
+			for m < len(a)-n && m < len(b)-n && a[len(a)-1-m] == b[len(b)-1-m] {
+				m++
+			}
+			return n + m
+		}
+		pairs := map[*ssa.Function]string{}
+		usedM := map[string]bool{}
+		okAll := true
+		for _, fn := range fns {
+			best, bestScore, tie := "", -1, false
+			for _, m := range ms {
+				sc := score(fn.Name(), base(m))
+				if sc > bestScore {
+					best, bestScore, tie = m, sc, false
+				} else if sc == bestScore {
+					tie = true
+				}
+			}
+			if tie || bestScore < 3 || usedM[best] {
+				okAll = false
+				break
+			}
+			usedM[best] = true
+			pairs[fn] = best
+		}
+		if !okAll {
+			continue
+		}
+		for fn, qn := range pairs {
+			key := relOfVocabName(c.p, qn)
+			if key == "" {
+				continue
+			}
+			if _, taken := c.fn[key]; taken {
+				continue
+			}
+			if _, aliased := c.fnName[fn]; aliased {
+				continue
+			}
+			c.fn[key] = fn
+			c.fnName[fn] = qn
+			c.notes = append(c.notes, "function "+ir.RawQualifiedName(fn)+" plays the role of "+qn+" (same signature, closest name)")
+		}
+	}
 	for sg, fns := range bySig {
 		if len(fns) != 1 || len(missing[sg]) != 1 {
 			continue
@@ -679,6 +742,48 @@ func (c *canonT) resolveRenamedBySignature() {
 			continue
 		}
 		c.aliasFn(rel, rest, fn)
+	}
+	// a function moved to another package under its own name: same name, receiver and signature
+	{
+		dropPkg := func(sg string) string {
+			if i := strings.Index(sg, "|"); i >= 0 {
+				return sg[i:]
+			}
+			return sg
+		}
+		baseName := func(q string) string {
+			if i := strings.Index(q, "."); i >= 0 {
+				return q[i+1:]
+			}
+			return q
+		}
+		for _, fn := range unknown {
+			if _, aliased := c.fnName[fn]; aliased || fn.Signature.Recv() != nil {
+				continue
+			}
+			var cands []string
+			for n, sg := range vocab {
+				if present[n] || baseName(n) != fn.Name() {
+					continue
+				}
+				if dropPkg(sg) == dropPkg(normalize.SigKey(fn)) {
+					cands = append(cands, n)
+				}
+			}
+			if len(cands) != 1 {
+				continue
+			}
+			key := relOfVocabName(c.p, cands[0])
+			if key == "" {
+				continue
+			}
+			if _, taken := c.fn[key]; taken {
+				continue
+			}
+			c.fn[key] = fn
+			c.fnName[fn] = cands[0]
+			c.notes = append(c.notes, "function "+ir.RawQualifiedName(fn)+" plays the role of "+cands[0]+" (moved to another package)")
+		}
 	}
 	// second pass: a method whose receiver was dropped (or added): same package, parameters and results
 	strip := func(sg string) string {
